@@ -110,6 +110,7 @@ func init() {
 		Explorer: "E1 bounded-exhaustive expression x allowed-list enumeration, relational oracle between calls (set equality, re-spelling, inclusion)",
 		Rule: "expressions: every tree <= 3 leaves over 7 terms (family-overlapping ids, two references differing only in case) (two renderings coincide semantically; full parenthesisation used); allowed lists: every list of length <= k with repetition over 9 entries (all permutations and duplications of every set of <= k entries); " +
 			"two more spaces over the 5-7 ways of writing one license (x, x+, x-only, x-or-later, x WITH e, x+ WITH e, x WITH f) as terms and as entries; " +
+			"for every family of the version table that has such ids: its first, second and last version with up to 4 listed ids outside every family that sort between its versions, lists up to 3; " +
 			"oracles: lists with the same set of entries give the same verdict; replacing an entry by any re-spelling (case, spaces, parentheses, -only, exception case) keeps it; A subset B => (sat(A) => sat(B)) for all enumerated sets; " +
 			"state = (expression, list), one transition each; non-trivial = lists with a repeated entry or more than one ordering (length >= 2) whose verdict is 'true' for at least one and whose expression has >= 2 distinct terms",
 		Assumptions: []string{"differential: no reference model", "X-only as a re-spelling of X relies on C08's equivalence"},
@@ -145,6 +146,22 @@ func c07Run(c *Ctx) {
 			return
 		}
 	}
+	// every family of the version table together with the ids outside every family that sort between
+	// its versions (Artistic-1.0-Perl between Artistic-1.0 and Artistic-2.0): a scan over the sorted list
+	// that stops at the first entry 'past' the family must not stop there
+	nfam := 0
+	for _, f := range Families() {
+		at := familyAtoms(f)
+		ib := inBetweenIDs(f, 4)
+		if len(at) < 2 || len(ib) == 0 {
+			continue
+		}
+		nfam++
+		if !c07Space(c, fmt.Sprintf("family-%d-with-in-between-ids", f.Index), at, append(append([]string{}, at...), ib...), 1, 3, false) {
+			return
+		}
+	}
+	c.Bound("families_with_in_between_ids", nfam)
 	c07Long(c)
 }
 
